@@ -127,7 +127,7 @@ def utm_trace(st0, st1, a, res):
 UPDATE_TIME_ON_MARKET = FSpec("Simulator._update_time_on_market", props=("C06", "C17"), trace=utm_trace)
 
 
-@task("Simulator._update_time_on_market", props=["C06", "C17"], functions=["Simulator._update_time_on_market"], replay="whole_run")
+@task("Simulator._update_time_on_market", props=["C06", "C17"], functions=["Simulator._update_time_on_market"], replay="index")
 def t_update_time_on_market():
     """a non-index market is advanced with the generator's value for time+1, an index market with the weighted average of its components for time+1"""
     specs = {("m", "Market", "_update_time"): TICK, ("m", "Fundamentals", "get_fundamental_price"): FUND, ("m", "IndexMarket", "compute_fundamental_index"): FUNDIDX}
@@ -152,7 +152,7 @@ from pyvc.spec import ELEM      # noqa
 UPDATE_TIMES = FSpec("Simulator._update_times_on_markets", props=("C06", "C17"), trace=utms_trace, param_types={"markets": ("list", ("ref", "Market"))})
 
 
-@task("Simulator._update_times_on_markets", props=["C06", "C17"], functions=["Simulator._update_times_on_markets"], replay="whole_run")
+@task("Simulator._update_times_on_markets", props=["C06", "C17"], functions=["Simulator._update_times_on_markets"], replay="index")
 def t_update_times():
     """every market of the list is advanced exactly once per call; every non-index market before every index market"""
     specs = {("m", "Simulator", "_update_time_on_market"): UTOM}
